@@ -49,6 +49,7 @@ JudgeParse(e) ==
             \/ ~SameExos(e.exos, parser'.exos)
             \/ Range(e.ics) # Range(parser'.ics)
             \/ e.maxTime # parser'.maxTime
+            \/ e.tol # parser'.tol
          THEN Drift("parse_lists")
     ELSE Ok
 
@@ -68,6 +69,8 @@ ObsClosed(e) ==
 JudgeFile(e) ==
     IF ~e.ok THEN Prop("C20_ImportAndRun")
     ELSE IF ~(SolverNames \subseteq Range(e.globals)) THEN Drift("C20_ResolvesSolverNames")
+    ELSE IF e.tol # blk.tolText \/ e.maxTime # blk.maxTime THEN Drift("C20_AttributesFromCurrentBlock")
+    ELSE IF ~e.vectorIsTuple THEN Drift("C20_VectorIsTuple")
     ELSE IF ~ObsClosed(e) THEN Drift("C20_Closed")
     ELSE IF ~IteratorEvaluates(parser, [iterReads |-> e.iterReads]) THEN Drift("C20_IteratorEvaluatesEquations")
     ELSE IF ~(e.loopAfterPack \/ Range(NamesOf(e.pack)) \cap LoopNames = {}) THEN Drift("C20_LoopStateOwn")
@@ -81,6 +84,7 @@ JudgeFile(e) ==
             \/ ~SameReads(e.iterReads, file'.iterReads)
             \/ e.unpack # file'.unpack
             \/ e.loopAfterPack # file'.loopAfterPack
+            \/ e.vectorIsTuple # file'.vectorIsTuple
             \/ Range(e.globals) # file'.globals
             \/ ~SameReads(e.declReads, file'.declReads)
             \/ e.varList # file'.varList
@@ -123,6 +127,7 @@ PhaseFor(ev) == CASE ev = "ParseBlock"        -> {"init"}
                   [] ev = "Import"            -> {"file"}
                   [] ev = "RunStep"           -> {"imported", "running"}
                   [] ev = "Regenerate"        -> IF ngen < MaxGenerations THEN {"done"} ELSE {}
+                  [] ev = "Reparse"           -> IF first = NoBlock THEN {"file"} ELSE {}
                   [] OTHER                    -> {}
 
 TraceInit == Init /\ l = 1 /\ verdict = Ok
@@ -149,20 +154,28 @@ TraceNext ==
        \/ /\ e.ev = "RunStep" /\ phase \in PhaseFor(e.ev)
           /\ RunStep(e.resid_ok)
           /\ verdict' = Worse(verdict, JudgeStep(e))
+       \/ /\ e.ev = "Reparse" /\ phase \in PhaseFor(e.ev) /\ e.ok
+          /\ first' = blk /\ blk' = e.block /\ parser' = ParseOp(e.block) /\ phase' = "parsed" /\ ngen' = 0
+          /\ gen' = NoGen /\ file' = NoFile /\ mod' = NoModule
+          /\ verdict' = Worse(verdict, JudgeParse(e))
+       \/ /\ e.ev = "Reparse" /\ phase \in PhaseFor(e.ev) /\ ~e.ok
+          /\ first' = blk /\ blk' = e.block /\ phase' = "rejected"
+          /\ UNCHANGED << ngen, parser, gen, file, mod >>
+          /\ verdict' = Worse(verdict, IF Accepts(e.block) THEN Drift("parser_rejected_block") ELSE Ok)
        \/ /\ e.ev = "Regenerate" /\ phase \in PhaseFor(e.ev)
           /\ Regenerate
           /\ verdict' = verdict
        \/ /\ e.ev = "Csv"
           /\ UNCHANGED vars
           /\ verdict' = Worse(verdict, JudgeCsv(e))
-       \/ /\ e.ev \in {"ParseBlock", "GenerateEquations", "GenerateFile", "Import", "RunStep", "Regenerate"}
+       \/ /\ e.ev \in {"ParseBlock", "GenerateEquations", "GenerateFile", "Import", "RunStep", "Regenerate", "Reparse"}
           /\ phase \notin PhaseFor(e.ev)             \* an event the spec has no action for in this phase
           /\ UNCHANGED vars
           /\ verdict' = Worse(verdict, IF e.ev = "RunStep" /\ ~e.ok THEN Prop("C20_ImportAndRun")
                                        ELSE Drift("event_order"))
        \/ /\ e.ev = "End"
           /\ PrintT(<< "VERDICT", e.tid, verdict.kind \o ":" \o verdict.clause >>)
-          /\ phase' = "init" /\ ngen' = 0 /\ blk' = NoBlock /\ parser' = NoParser /\ gen' = NoGen
+          /\ phase' = "init" /\ ngen' = 0 /\ first' = NoBlock /\ blk' = NoBlock /\ parser' = NoParser /\ gen' = NoGen
           /\ file' = NoFile /\ mod' = NoModule
           /\ verdict' = Ok
 
